@@ -188,7 +188,7 @@ class Ctx:
         rows_n = sum(1 for _ in open(events))
         if rows_n == 0:
             return []
-        shards = shards or min(5, max(1, rows_n // 1500, os.path.getsize(events) // 4000000))
+        shards = shards or min(5, max(1, rows_n // 700, os.path.getsize(events) // 2500000))
         paths = []
         if shards == 1:
             paths = [events]
